@@ -19,6 +19,7 @@ from fractions import Fraction
 
 from . import terms as tm
 from . import solve
+from .values import SymSet  # noqa: E402
 from .values import (Sym, SInt, SBool, SStr, SReal, SDec, SErr, Obj, SymSeq, Unsupported,
                      SpecError, dec_term, is_sym, OpaqueFn, OpaqueVal, ArrVal)
 from . import dates as _dates  # noqa: F401  (registers datetime / calendar models)
@@ -787,6 +788,8 @@ class Interp:
     def ex_Set(self, e, env):
         vs = self._elts(e.elts, env)
         if any(is_sym(v) for v in vs):
+            if all(is_sym(v) or isinstance(v, (str, int)) for v in vs):
+                return SymSet(vs)          # membership only (values.SymSet)
             raise Unsupported('set of symbolic values')
         return set(vs)
 
@@ -998,6 +1001,8 @@ class Interp:
     def ex_SetComp(self, e, env):
         vs = self._comp(e, env, lambda sub: self.eval(e.elt, sub))
         if any(is_sym(v) for v in vs):
+            if all(is_sym(v) or isinstance(v, (str, int)) for v in vs):
+                return SymSet(vs)          # membership only (values.SymSet)
             raise Unsupported('set of symbolic values')
         return set(vs)
 
